@@ -161,8 +161,10 @@ def _same(cell, key):
     ck, kk = kind(cell), kind(key)
     if ck != kk:
         return False
-    if ck == 'text' and cell != key and fold(cell) == fold(key):
-        raise Unjudged('key-differs-from-cell-only-by-case')
+    if ck == 'text':
+        # "equals" is the equality of the = operator: texts are equal
+        # whatever their case (property C09)
+        return fold(cell) == fold(key)
     return cell == key
 
 
@@ -263,12 +265,7 @@ def selftest():
     assert match_exact(col, 7) == NA and match_exact(col, 'zz') == NA
     assert match_exact([3, 1, 3], 3) == 1
     assert match_exact(['5x', 5], 5) == 2
-    try:
-        match_exact(col, 'APPLE')
-    except Unjudged:
-        pass
-    else:
-        raise AssertionError('case-folded key judged')
+    assert match_exact(col, 'APPLE') == 4 and match_exact(col, 'B') == 6
     asc = [1, 3, 3, 7]
     assert [match_approx(asc, k) for k in range(0, 9)] == \
         [ANY_ERROR, 1, 1, 3, 3, 3, 3, 4, 4]
